@@ -19,18 +19,18 @@ func driveBaseMul(c *ctx) {
 	r := rand.New(rand.NewSource(c.seed))
 
 	// ---- the tables: one stateful walk per row (the specification carries the running multiple)
-	for i := 0; i < 32; i++ {
+	for i := 0; deep && i < 32; i++ {
 		c.nextTrace()
 		c.E("tbl.Row", "i", i)
 		for j := 1; j <= 255; j++ {
-			x, y := secp256k1.VerifHugeTableEntry(i, j-1)
+			x, y := deepHugeTableEntry(i, j-1)
 			c.E("tbl.Huge", "i", i, "j", j, "x", hx(x.Bytes()), "y", hx(y.Bytes()))
 		}
 	}
 	c.sticky = false
-	for i := 0; i < 32; i++ {
+	for i := 0; deep && i < 32; i++ {
 		for j := 1; j <= 15; j++ {
-			x, y := secp256k1.VerifOddTableEntry(i, j-1)
+			x, y := deepOddTableEntry(i, j-1)
 			c.E("tbl.Odd", "i", i, "j", j, "x", hx(x.Bytes()), "y", hx(y.Bytes()))
 		}
 	}
@@ -96,10 +96,26 @@ func driveBaseMul(c *ctx) {
 		sc := scFrom(s)
 		v := rep(secp256k1.NewGeneratorPoint(), big.NewInt(int64(7+idx)))
 		v.ScalarBaseMult(sc)
-		c.E("bm.Mult", "kind", "ct", "s", h32(s), "out", ptRaw(v))
-		v = rep(secp256k1.NewGeneratorPoint(), big.NewInt(int64(9+idx)))
-		v.VerifScalarBaseMultVartime(sc)
-		c.E("bm.Mult", "kind", "vartime", "s", h32(s), "out", ptRaw(v))
+		c.E("bm.Mult", "kind", "ct", "s", h32(s), "out", ptRaw(v), "enc", hx(v.UncompressedBytes()), "s_post", hx(sc.Bytes()))
+		if idx%3 == 0 { // recycled receivers from the library's own constructors (generator, decoded), observed through the encoders
+			v = secp256k1.NewGeneratorPoint()
+			if idx%2 == 0 {
+				if _, err := v.SetBytes(mulG(big.NewInt(int64(idx + 2))).CompressedBytes()); err != nil {
+					panic(err)
+				}
+			}
+			v.ScalarBaseMult(sc)
+			c.E("bm.Mult", "kind", "ct_recycled", "s", h32(s), "out", ptRaw(v), "enc", hx(v.UncompressedBytes()), "cmp", hx(v.CompressedBytes()))
+		}
+		if deep {
+			v = rep(secp256k1.NewGeneratorPoint(), big.NewInt(int64(9+idx)))
+			deepScalarBaseMultVartime(v, sc)
+			c.E("bm.Mult", "kind", "vartime", "s", h32(s), "out", ptRaw(v))
+		} else { // the variable-time generator multiply through its exported caller: u1*G + 0*G
+			v = secp256k1.NewGeneratorPoint()
+			v.DoubleScalarMultBasepointVartime(sc, secp256k1.NewScalar(), secp256k1.NewGeneratorPoint())
+			c.E("bm.Mult", "kind", "vartime", "s", h32(s), "out", ptRaw(v))
+		}
 		if idx%4 == 0 && s.Sign() != 0 {
 			priv, err := secec.NewPrivateKey(be32(s)[:])
 			if err != nil {
